@@ -29,9 +29,29 @@ R1 xor: 2+3 (path terms, roles of the XOR operands by structure), 4 (abstract ke
    N some byte non-zero} with interval transfer for `len(key)`, `sum(key)`, `any(key)`, `sum(key) % m`, tests of a
    part of the key; linear facts from the path conditions; length algebra of slices and repetitions), 6 (byte order /
    signed constants).  Lemmas: L1-L9, L24.
+   Block-wise results (the returned bytes are a concatenation of pieces - `b"".join(P(o) for o in range(..))`, a bytes /
+   bytearray / list-of-pieces accumulator filled by one for-loop (analysed once), `P1 + P2` - each piece a term over ONE
+   slice data[lo:hi]): 3 (def-use / information flow: the slice is abstracted to an atom and the rest of the piece must be
+   a term over that atom, the key and pure builtins, or a call of a plain repository function - xor itself included - with
+   such arguments; does that rest read the loop variable?), 4 (start of the j-th slice as a polynomial over the block index
+   $j via L22, `% len(key)` expanded by L2; the factor len(key) in every monomial = a multiple of len(key); the end of slice
+   j against the start of slice j + 1 in normal form; a recognised rotation `key[r:] + key[:r]` with r = <term> % len(key)
+   compared with the slice start modulo len(key)), 1 (callee resolution; a piece helper's own returning paths get the
+   obligations of xor's computed result with the slice in the role of the data).  A violation is only claimed when the
+   path conditions admit keys of every large length (`_admits_long_keys`: interval transfer of the key domain, sign
+   pattern of linear bounds) AND the piece is established to XOR from the first byte of its key operand (those
+   obligations all discharged; xor applied to a slice: by the property itself) or, failing that, when one and the same
+   position-blind term serves slices whose starts differ by a non-multiple (a $j monomial without the factor).
+   Lemma: L27.
 R2 pack/unpack: 1+6 (partial chains compared completely with the table the names promise), 3 (returned call located
-   by role, pass-through of parameters), 5 (case `size is None` / `size is not None` read off the path conditions),
-   4 (minimal byte count in normal form).  Lemma: L10.
+   by role, pass-through of parameters - a constant `signed` the path conditions fix, a constant byte order on a path of
+   at most one byte count as passed through), 5 (case `size is None` / `size is not None` / `size == c` read off the path
+   conditions), 4 (minimal byte count in normal form).  Lemma: L10.
+   Dependence on `signed` / `byteorder` (every returning path of unpack, `byteorder` for pack): 3 (information flow on the
+   path terms: the argument occurs in the returned term - also through a loop-carried value, whose loop is looked at once -
+   or in a condition of the path), 4 (interval sets for len(data) and `size` from the path conditions: the largest number
+   of bytes the conversion covers on the path; 0 bytes need no `signed`, <= 1 byte no `byteorder`), 5 (size None / given).
+   Lemma: L26.
 R3 checksum8 / classifiers: 2+3 (path terms; true-alternatives of the classifier value by short-circuit splitting),
    4 (interval sets for `len(text)` and for the checksum value in [0, 255]), 3 (code-point sum recognised
    structurally), 6 (regular expression: syntax tree from CPython's `re._parser`, anchors / repeat counts / character
@@ -87,6 +107,16 @@ Lemmas (each is an identity / inequality over the integers; the one-line reason 
      2**(8*size + b) == 2**b * $W for b >= -8 and (c*$W) >> k == (c*$W) // 2**k == (c / 2**k) * $W whenever 2**k divides
      256*c; for a >= 0 the term a*$W + b is non-decreasing in $W, hence >= 256*a + b at every width (dually for a <= 0).
      The integers representable in `size` bytes are [-$W/2, $W/2 - 1] signed and [0, $W - 1] unsigned.   (two's complement)
+ L26 int.from_bytes(b, o, signed=True) == int.from_bytes(b, o, signed=False) - (256**len(b) if the most significant byte of
+     b is >= 0x80 else 0): the two agree exactly on the empty chunk and on chunks with the top bit clear, and every width
+     >= 1 has chunks with the top bit set (what to_bytes(.., signed=True) yields for negative values).  The little- and
+     big-endian readings (byte strings) agree for every chunk (value) of a width only when the width is <= 1; from two
+     bytes on they differ unless the byte string is a palindrome.   (positional notation, two's complement)
+ L27 XOR with the repeating key pairs data byte lo + i with key byte (lo + i) % len(key).  A function of the bytes of
+     data[lo:hi] and of the key alone returns equal pieces for equal slices, but for a key with pairwise distinct bytes the
+     required piece depends on lo % len(key); so slices that such a function handles must all start at multiples of
+     len(key).  No integer m >= 1 is a multiple of every key length (m % L == m != 0 for every L > m, L24), likewise no
+     constant rotation error c != 0.  n % k == n - k * (n // k), so n - n % k is a multiple of k (L2).
 """
 
 from __future__ import annotations
@@ -1205,6 +1235,11 @@ def _could_classify(a):
     return False
 
 
+def _show(e, n=80):
+    """Text of a path term for messages, without the executor's symbol suffixes."""
+    return re.sub(r"@\d+p?", "", src(e))[:n]
+
+
 def _cond_text(conds):
     return [("" if pol else "not ") + src(a) for a, pol in conds]
 
@@ -1220,9 +1255,14 @@ def run(ctx):
         "non-zero with interval transfer for len, sum, any, modular and partial tests), otherwise int.to_bytes(from_bytes(data) ^ "
         "from_bytes(keystream), len(data), ..) with one unsigned byte order, the length argument equal to len(data) in polynomial "
         "normal form and a keystream that is the key repeated from its first byte and cut to len(data) (length algebra of slices and "
-        "repetitions, tiling lemmas k*(n//k+1) > n, k*ceil(n/k) >= n); the pack/unpack partials are compared completely with the "
+        "repetitions, tiling lemmas k*(n//k+1) > n, k*ceil(n/k) >= n); where xor() assembles its result from pieces over slices of "
+        "the data, a piece that reads only its slice and the key (information flow on the piece term) requires every slice start - a "
+        "polynomial over the block index - to be a multiple of len(key), a piece that reads the position must rotate the key by the "
+        "start modulo len(key), consecutive slices must tile the data, and a piece helper gets the obligations of xor's own result; "
+        "the pack/unpack partials are compared completely with the "
         "widths/byte orders their names promise and pack/unpack pass byteorder/signed through, pack sizing with ceil(bit_length/8) "
-        "exactly in the case size is None; checksum8 returns 0 on exactly the text lengths [0, 3] and the code point sum without '/' "
+        "exactly in the case size is None; every returning path of unpack reads `signed` and `byteorder` (pack: `byteorder`) in its "
+        "term or its conditions unless the path conditions confine it to an empty chunk (byte order: one byte); checksum8 returns 0 on exactly the text lengths [0, 3] and the code point sum without '/' "
         "modulo 256 on [4, inf) (interval sets from the path conditions); the classifiers' true-alternatives cover exactly checksum "
         "value 92 / 93 (interval sets over [0, 255]) and for x64 the parsed regular expression is '/' + exactly four characters of the "
         "class [0-9A-Za-z] anchored at both ends (syntax tree, flags); a generated stager URI is returned only on the true edge of its "
@@ -1238,11 +1278,13 @@ def run(ctx):
         "self-inverse / inverse laws as such (only the structural conditions that imply them, via the lemmas in the module docstring)",
         "odd-length NetBIOS input", "exceptions raised inside int.to_bytes / int.from_bytes themselves and range checks of pack() spelled with bit_length() or other forms than comparisons with a*2**(8*size) + b (undecided)", "minimal-width signed packing (size None, signed=True)", "`$` matching before one trailing newline in the x64 pattern",
         "spellings outside the recognised algebraic forms (reported as undecided)",
+        "block-wise xor with while-loops, stateful key iterators shared between pieces, strides the algebra cannot relate to len(key), or under path conditions that bound the key length (undecided); a piece helper is assumed to be a function of its arguments (plain module-level function without global / nonlocal)",
+        "WHAT a path of unpack/pack computes from `signed` / `byteorder` when it is not the int.from_bytes / to_bytes call (only that it reads them); pack's dependence on `signed` (the bytes of a representable value do not depend on it, only the range check does: R7)",
     ]
     rep.trusted_base = [
         "CPython ast", "int.from_bytes / to_bytes semantics", "CPython re._parser (parse tree of the x64 URI pattern; nothing is matched)",
         "constant folder for constant expressions (string module constants, re flags)", "csverif.absint (SymPoly normal form, Itv)",
-        "lemmas L1-L25 of the rules/c20.py docstring (length algebra, floor/ceiling division, known-bits facts for a byte, regex anchor/class semantics, powers of 256 and the two's complement range)",
+        "lemmas L1-L27 of the rules/c20.py docstring (length algebra, floor/ceiling division, known-bits facts for a byte, regex anchor/class semantics, powers of 256 and the two's complement range, signed / byte-order dependence of from_bytes, key phase of a repeating-key XOR)",
     ]
     from csverif import AnalysisError
 
@@ -1460,6 +1502,370 @@ def _keystream(K, F, data, key):
     return None, f"cannot relate the length {lx!r} of {what} to len({data})"
 
 
+# ---- block-wise xor: the result is a concatenation of pieces, each computed from one slice of the data
+_PURE_CALLS = {"len", "bytes", "bytearray", "memoryview", "int", "min", "max", "abs", "divmod", "int.from_bytes", "int.to_bytes"}
+BLOCKS = "block-wise xor continues the key phase"
+
+
+def _pure_term(e, allowed):
+    """Is the term built only from the allowed names, constants, operators, indexing / slicing and calls of builtins whose
+    result is a function of the argument *values* (no iterators or generators that carry a position, no other callee)?"""
+    if e is None or isinstance(e, ast.Constant):
+        return True
+    if isinstance(e, ast.Name):
+        return e.id in allowed
+    if isinstance(e, ast.BinOp):
+        return _pure_term(e.left, allowed) and _pure_term(e.right, allowed)
+    if isinstance(e, ast.UnaryOp):
+        return _pure_term(e.operand, allowed)
+    if isinstance(e, ast.BoolOp):
+        return all(_pure_term(x, allowed) for x in e.values)
+    if isinstance(e, ast.Compare):
+        return _pure_term(e.left, allowed) and all(_pure_term(x, allowed) for x in e.comparators)
+    if isinstance(e, ast.IfExp):
+        return all(_pure_term(x, allowed) for x in (e.test, e.body, e.orelse))
+    if isinstance(e, (ast.Tuple, ast.List)):
+        return all(not isinstance(x, ast.Starred) and _pure_term(x, allowed) for x in e.elts)
+    if isinstance(e, ast.Subscript):
+        sl = e.slice
+        parts = (sl.lower, sl.upper, sl.step) if isinstance(sl, ast.Slice) else (sl,)
+        return _pure_term(e.value, allowed) and all(_pure_term(x, allowed) for x in parts)
+    if isinstance(e, ast.Call):
+        if any(isinstance(x, ast.Starred) for x in e.args) or any(k.arg is None for k in e.keywords):
+            return False
+        args = list(e.args) + [k.value for k in e.keywords]
+        if dotted(e.func) in _PURE_CALLS:
+            return all(_pure_term(x, allowed) for x in args)
+        if isinstance(e.func, ast.Attribute) and e.func.attr == "to_bytes":
+            return _pure_term(e.func.value, allowed) and all(_pure_term(x, allowed) for x in args)
+    return False
+
+
+def _folds_to_empty(e, types):
+    try:
+        v = _fold(e) if e is not None else None
+    except _NoEval:
+        return False
+    return isinstance(v, types) and len(v) == 0
+
+
+def _appended(t, head, listacc):
+    """What one iteration adds to the accumulator whose loop-head symbol is `head`: `acc@k + P`, `$extend(acc@k, P)` for a
+    bytes / bytearray accumulator, `$append(acc@k, P)`, `acc@k + [P, ..]`, `$extend(acc@k, [P, ..])` for a list of pieces
+    that is joined afterwards -> [P, ..]; None when the accumulator is changed in another way."""
+    if isinstance(t, ast.Name):
+        return [] if t.id == head else None
+    base = item = None
+    if isinstance(t, ast.Call) and dotted(t.func) in ("$extend", "$append") and len(t.args) == 2 and not t.keywords:
+        base, item = t.args
+        if dotted(t.func) == "$append":
+            if not listacc:
+                return None
+            item = ast.List(elts=[item], ctx=ast.Load())
+    elif isinstance(t, ast.BinOp) and isinstance(t.op, ast.Add):
+        base, item = t.left, t.right
+    if base is None:
+        return None
+    b = _appended(base, head, listacc)
+    if b is None:
+        return None
+    if not listacc:
+        return b + [item]
+    if not isinstance(item, (ast.List, ast.Tuple)) or any(isinstance(x, ast.Starred) for x in item.elts):
+        return None
+    return b + list(item.elts)
+
+
+def _loop_pieces(ex, sym, listacc):
+    nm, _, k = sym.partition("@")
+    lp = ex.loops.get(int(k)) if k.isdigit() else None
+    if lp is None or not isinstance(lp.stmt, ast.For) or lp.exits or lp.stmt.orelse or not lp.iters or not isinstance(lp.stmt.target, ast.Name):
+        return None
+    if not _folds_to_empty(lp.pre.get(nm), list if listacc else (bytes, bytearray)):
+        return None
+    var = lp.head[lp.stmt.target.id]
+    out = []
+    for b in lp.iters:
+        items = _appended(b.env.get(nm), sym, listacc)
+        if items is None:
+            return None
+        out.extend((lp.iter, var, e, list(b.conds[lp.nconds:])) for e in items)
+    return out
+
+
+def _concat_pieces(ex, v):
+    """A byte string assembled from pieces -> [(iterable | None, loop variable | None, piece term, conditions of the
+    iteration)]: `b"".join(P(o) for o in IT)`, `b"".join([P1, P2])`, `P1 + P2 + ..`, a bytes / bytearray accumulator grown by
+    one for-loop, a list of pieces filled by one for-loop and joined.  None: another shape."""
+    v = _strip_view(v)
+    if isinstance(v, ast.Call) and isinstance(v.func, ast.Attribute) and v.func.attr == "join" and len(v.args) == 1 and not v.keywords and _folds_to_empty(v.func.value, (bytes, bytearray)):
+        x = _strip_view(v.args[0])
+        if isinstance(x, (ast.GeneratorExp, ast.ListComp)):
+            g = x.generators[0]
+            if len(x.generators) != 1 or g.ifs or g.is_async or not isinstance(g.target, ast.Name):
+                return None
+            return [(g.iter, g.target.id, x.elt, [])]
+        if isinstance(x, (ast.List, ast.Tuple)) and x.elts and not any(isinstance(e, ast.Starred) for e in x.elts):
+            return [(None, None, e, []) for e in x.elts]
+        if isinstance(x, ast.Name) and "@" in x.id:
+            return _loop_pieces(ex, x.id, True)
+        return None
+    if isinstance(v, ast.Name) and "@" in v.id:
+        return _loop_pieces(ex, v.id, False)
+    if isinstance(v, ast.BinOp) and isinstance(v.op, ast.Add):
+        parts = []
+
+        def flat(e):
+            if isinstance(e, ast.BinOp) and isinstance(e.op, ast.Add):
+                flat(e.left)
+                flat(e.right)
+            else:
+                parts.append(e)
+
+        flat(v)
+        return [(None, None, e, []) for e in parts]
+    return None
+
+
+def _poly_subst(p, atom, q):
+    out = SymPoly()
+    for mon, c in p.terms.items():
+        t = SymPoly({tuple(x for x in mon if x != atom): c})
+        for _ in range(mon.count(atom)):
+            t = t * q
+        out = out + t
+    return out
+
+
+def _expand_mod(p, k):
+    """n % k == n - k * (n // k) (L2) for every modulo atom of `p` whose divisor is the polynomial k."""
+    for _ in range(8):
+        hit = [a for a in p.atoms() if a in _DIVS and _DIVS[a][0] == "md" and _DIVS[a][2] == k]
+        if not hit:
+            break
+        _kind, n, _k2 = _DIVS[hit[0]]
+        p = _poly_subst(p, hit[0], n - k * _div_atom("fd", n, k))
+    return p
+
+
+def _range_start_step(it):
+    if not (isinstance(it, ast.Call) and dotted(it.func) == "range" and not it.keywords and 1 <= len(it.args) <= 3 and not any(isinstance(a, ast.Starred) for a in it.args)):
+        return None
+    if len(it.args) == 1:
+        return ast.Constant(value=0), ast.Constant(value=1)
+    return it.args[0], (it.args[2] if len(it.args) == 3 else ast.Constant(value=1))
+
+
+def _key_rotation(a, key):
+    """`key[r:] + key[:r]` inside term `a` -> (node, r) or None."""
+    for n in ast.walk(a):
+        if isinstance(n, ast.BinOp) and isinstance(n.op, ast.Add) and all(isinstance(x, ast.Subscript) and isinstance(x.slice, ast.Slice) and _is_param(_strip_view(x.value), key) for x in (n.left, n.right)):
+            l, r = n.left.slice, n.right.slice
+            if l.lower is not None and l.upper is None and l.step is None and r.lower is None and r.upper is not None and r.step is None and src(l.lower) == src(r.upper):
+                return n, l.lower
+    return None
+
+
+def _admits_long_keys(conds, data, key):
+    """Do the path conditions hold for keys of every sufficiently large length with arbitrary content (some byte non-zero)
+    together with data that is long enough?  Each condition on the key / data must either hold for every key of the class
+    N of the abstract key domain (interval transfer of `_key_iv`), or be a linear bound c_k*len(key) + c_d*len(data) + c >= 0
+    that large lengths satisfy (c_k, c_d >= 0, or c_k < 0 < c_d: the data can be chosen longer); no upper bound on
+    len(data).  False: not shown (nothing is claimed)."""
+    seqs = {data, key}
+    kl, n = (f"len({key})",), (f"len({data})",)
+    for a, pol in conds:
+        a = _unview(a, seqs)
+        if not (_mentions(a, key) or _mentions(a, data)):
+            continue
+        r = _lin_test(a, lambda name: _key_iv(name, "N", True, data, key))
+        if r not in (None, "R") and r[0] in ("T", "F") and (r[0] == "T") == pol:
+            continue
+        F1 = _Facts(seqs)
+        F1.add_cond(a, pol)
+        if F1.unknown or not F1.ge:
+            return False
+        for fct in F1.ge:
+            if not all(mon in ((), kl, n) for mon in fct.terms):
+                return False
+            ck, cd = fct.terms.get(kl, 0), fct.terms.get(n, 0)
+            if not ((ck >= 0 and cd >= 0) or (ck < 0 < cd)):
+                return False
+    return True
+
+
+def _xor_blockwise(ctx, f, ex, s, data, key):
+    """The computed result of path `s` is a concatenation of pieces, each computed from one slice data[lo:hi] of the data.
+    Necessary condition (L27): XOR with the *repeating* key needs key byte (lo + i) % len(key) at position i of a piece.
+    A piece is read as a term over its slice (abstracted to an atom), the key and - possibly - the position of the slice.
+    If it does not read the position it XORs with the key from its first byte (established by the obligations of xor's own
+    computed result on the piece / the piece helper; xor itself by the property) and is only right when every slice starts
+    at a multiple of len(key): start polynomial over the block index with the factor len(key) in every monomial.  If it
+    rotates the key, `key[r:] + key[:r]` with r = N % len(key), then N - start must be such a multiple.  Consecutive slices
+    must tile the data.  -> False when the result is not such a concatenation (nothing recorded)."""
+    pieces = _concat_pieces(ex, s.end[1])
+    if not pieces:
+        return False
+    node = s.end[2]
+    seqs = {data, key}
+    klname = f"len({key})"
+    kl, n = SymPoly.atom(klname), SymPoly.atom(f"len({data})")
+    F = _facts_of(s.conds, seqs)
+    free_keys = _admits_long_keys(s.conds, data, key)  # a violation needs a witness key: any length > the offset in question
+    J = ast.Name(id="$j", ctx=ast.Load())
+    bad, und, good, infos, tiles = [], [], [], [], []
+    for it, var, e, extra in pieces:
+        e = _unview(e, seqs)
+        chunks = [x for x in ast.walk(e) if isinstance(x, ast.Subscript) and isinstance(x.slice, ast.Slice) and _is_param(x.value, data)]
+        if not chunks:
+            if not _mentions(e, data) and not _mentions(e, key):
+                continue  # a constant piece / separator: not a piece of the XOR
+            und.append(f"piece `{_show(e)}` does not read one slice of the data")
+            continue
+        c = chunks[0]
+        if len({src(x) for x in chunks}) != 1 or (c.slice.step is not None and _c(c.slice.step) != 1):
+            und.append(f"piece `{_show(e)}` reads several slices of the data / a strided slice")
+            continue
+        binds = {src(c): "$chunk", f"len({data})": "$len"}
+        a = _abstract(e, binds)
+        rot = _key_rotation(a, key)
+        if rot:
+            binds[src(rot[0])] = "$rot"
+            a = _abstract(a, binds)
+        krole = "$rot" if rot and not _mentions(a, key) else key
+        allowed = {"$chunk", "$len", "$rot", key} | ({var} if var else set())
+        callee = None
+        if isinstance(a, ast.Call) and dotted(a.func) is not None and dotted(a.func) not in _PURE_CALLS and not (isinstance(a.func, ast.Attribute) and a.func.attr == "to_bytes"):
+            sym = ctx.rs.lookup_dotted(f.module.name, dotted(a.func))
+            m = ctx.repo.modules.get(sym.module) if sym is not None and sym.kind == "func" else None
+            g = m.funcs.get(sym.name) if m else None
+            args = list(a.args) + [k.value for k in a.keywords]
+            if g is None or g.cls or not isinstance(g.node, ast.FunctionDef) or g.node.decorator_list or g.node.args.vararg or g.node.args.kwarg \
+                    or any(isinstance(x, (ast.Global, ast.Nonlocal)) for x in ast.walk(g.node)) \
+                    or any(isinstance(x, ast.Starred) for x in a.args) or any(k.arg is None for k in a.keywords) or not all(_pure_term(x, allowed) for x in args):
+                und.append(f"piece `{_show(e)}`: the callee is not a plain repository function of the slice and the key")
+                continue
+            callee = g
+        elif not _pure_term(a, allowed):
+            und.append(f"piece `{_show(e)}` is not a term over the slice and the key the rule models (iterators / other callees may carry the key position)")
+            continue
+        lo = c.slice.lower if c.slice.lower is not None else ast.Constant(value=0)
+        # the start of the j-th slice as a polynomial over the block index (L22)
+        pv = None
+        if var is not None:
+            rs = _range_start_step(it)
+            if rs is None or not _mentions(lo, var):
+                und.append(f"slice start `{_show(lo, 40)}` over `{_show(it, 60)}` is not a term of a range variable")
+                continue
+            at = lambda x, j: _subst_name(x, var, ast.BinOp(left=rs[0], op=ast.Add(), right=ast.BinOp(left=rs[1], op=ast.Mult(), right=j)))  # noqa: E731
+            pv = _P(at(ast.Name(id=var, ctx=ast.Load()), J))
+            p, p1 = _P(at(lo, J)), _P(at(lo, ast.Constant(value=1)))
+        else:
+            p = p1 = _P(lo)
+        if p is None or p1 is None or (var is not None and pv is None):
+            und.append(f"slice start `{_show(lo, 40)}` is not arithmetic")
+            continue
+        if var is not None and c.slice.upper is not None:
+            # consecutive slices tile the data: the end of slice j is the start of slice j + 1 (L1: the piece lengths add up)
+            pu, pn = _P(at(c.slice.upper, J)), _P(at(lo, ast.BinOp(left=J, op=ast.Add(), right=ast.Constant(value=1))))
+            gap = None if pu is None or pn is None else _int_const(pn - pu)
+            tiles.append((True, f"slice j ends at {pu!r}, where slice j + 1 starts") if gap == 0 else
+                         (False, f"slice j ends at {pu!r} but slice j + 1 starts at {pn!r}: {'a gap of' if gap > 0 else 'an overlap of'} {abs(gap)} byte(s) between consecutive pieces, the result is not len({data}) bytes long") if gap is not None and not F.unknown and F.ge0(p1 - n) is not True else
+                         (None, f"cannot compare the slice end `{_show(c.slice.upper, 40)}` with the next slice start"))
+        infos.append(dict(e=e, a=a, callee=callee, var=var, pv=pv, lo=lo, p=p, p1=p1, rot=rot, krole=krole, extra=extra, binds=binds))
+
+    # ---- what a piece computes from its slice: the obligations of xor's own computed result, with the slice as the data.
+    #      `phase0`: the piece is established to XOR its slice with its key operand from that operand's first byte
+    TXT = "return int.to_bytes(.., len(data), ..)"
+    cache = {}
+    for inf in infos:
+        callee, a, krole = inf["callee"], inf["a"], inf["krole"]
+        if callee is not None and callee.node is f.node:
+            inf["phase0"] = True  # xor applied to the slice: the obligations of this very function, the property itself
+            continue
+        n0 = len(ctx.rep.obs)
+        if callee is not None:
+            gps = params(callee.node)
+            b = _callargs(a, gps)
+            roles = {v.id: k for k, v in (b or {}).items() if isinstance(v, ast.Name) and v.id in ("$chunk", krole)}
+            ck = (id(callee.node), roles.get("$chunk"), roles.get(krole))
+            if ck in cache:
+                inf["phase0"] = cache[ck]
+                continue
+            if set(roles) != {"$chunk", krole}:
+                ctx.undecided("R1", "ABS", f, TXT, f"piece helper `{callee.fq}`: cannot bind the slice and the key to its parameters in `{_show(a)}`", node)
+            else:
+                try:
+                    gex, gstates = _paths(callee.node)
+                except (_Unsupported, RecursionError):
+                    gstates = None
+                    ctx.undecided("R1", "ABS", f, TXT, f"piece helper `{callee.fq}` uses a construct the path executor does not model", node)
+                for gs in gstates or ():
+                    if gs.end[0] == "return" and gs.end[1] is not None and not _is_param(_strip_view(gs.end[1]), roles["$chunk"]):
+                        _xor_computed(ctx, f, gex, gs, roles["$chunk"], roles[krole], depth=1)
+            new = ctx.rep.obs[n0:]
+            inf["phase0"] = cache[ck] = bool(new) and all(o.ok for o in new)
+        else:
+            st = _St(conds=list(s.conds) + [(_abstract(_unview(x, seqs), inf["binds"]), pol) for x, pol in inf["extra"]])
+            st.end = ("return", a, node)
+            _xor_computed(ctx, f, ex, st, "$chunk", krole, depth=1)
+            new = ctx.rep.obs[n0:]
+            inf["phase0"] = bool(new) and all(o.ok for o in new)
+
+    # ---- the key phase of every piece against the start of its slice
+    for inf in infos:
+        e, a, var, p, p1, rot, lo = inf["e"], inf["a"], inf["var"], inf["p"], inf["p1"], inf["rot"], inf["lo"]
+        if var is not None and _mentions(a, var):
+            und.append(f"piece `{_show(e)}` reads the position of its slice in a way the rule does not model (modelled: key[r:] + key[:r] with r = <term> % len({key}))")
+            continue
+        if rot:
+            pr = _P(rot[1])
+            d = _DIVS.get(next(iter(pr.atoms()))) if pr is not None and len(pr.atoms()) == 1 and pr == SymPoly.atom(next(iter(pr.atoms()))) else None
+            if d is None or d[0] != "md" or d[2] != kl:
+                und.append(f"piece `{_show(e)}`: the rotation amount `{_show(rot[1], 40)}` is not <term> % len({key})")
+                continue
+            phase = _poly_subst(d[1], var, inf["pv"]) if var is not None else d[1]
+            what = f"the key rotated by ({phase!r}) % len({key})"
+        else:
+            phase, what = SymPoly.const(0), "the key from its first byte"
+        shift = _expand_mod(phase - p, kl)
+        lacking = [mon for mon in shift.terms if klname not in mon]
+        where = f"{p!r}" + (" ($j = 0, 1, ..)" if var is not None else "")
+        if not lacking:
+            good.append(f"the piece over the slice starting at {where} XORs with {what}: the difference {shift!r} is a multiple of len({key})")
+            continue
+        if F.ge0(p1 - n) is True:
+            good.append(f"a slice that does not start at 0 starts at {p1!r} >= len({data}) on this path: it is empty")
+            continue
+        names = {x for mon in lacking for x in mon}
+        keyfree = not any(re.search(rf"(?<![\w$]){re.escape(key)}(?![\w@])", x) for x in names) and not (var is not None and any(var in x for x in names))
+        # without an established piece semantics: a function of (slice, key) alone cannot serve two different key phases
+        functional = var is not None and not rot and any("$j" in mon for mon in lacking)
+        if keyfree and free_keys and (inf["phase0"] or functional):
+            bad.append(f"the piece `{_show(e, 90)}` XORs its slice with {what}" + ("" if rot else " (it reads only the bytes of the slice and the key, not where the slice starts)")
+                       + f", but the slice starts at {where}: the key must continue at byte ({p!r}) % len({key}) there, and {(-shift)!r} is not a multiple of len({key}) for every key (L27)")
+        elif keyfree and free_keys:
+            und.append(f"piece `{_show(e)}`: the slice starts at {where}, not a multiple of len({key}), but what the piece computes from its slice is not established")
+        else:
+            und.append(f"cannot decide whether {(-shift)!r} (slice start minus key phase) is a multiple of len({key})" + ("" if free_keys else f" for the keys the path conditions {_cond_text(s.conds)[:4]} admit"))
+    if not (bad or und or good):
+        return False
+    if bad:
+        ctx.ob("R1", "ABS", f, BLOCKS, False, "; ".join(dict.fromkeys(bad))[:700] + f" (path {_cond_text(s.conds)})", node)
+    elif und:
+        ctx.undecided("R1", "ABS", f, BLOCKS, "; ".join(dict.fromkeys(und))[:400], node)
+    else:
+        ctx.ob("R1", "ABS", f, BLOCKS, True, "; ".join(dict.fromkeys(good))[:400], node)
+    TILES = "block-wise xor slices tile the data"
+    if any(t[0] is False for t in tiles):
+        ctx.ob("R1", "ABS", f, TILES, False, "; ".join(dict.fromkeys(t[1] for t in tiles if t[0] is False))[:400], node)
+    elif any(t[0] is None for t in tiles):
+        ctx.undecided("R1", "ABS", f, TILES, "; ".join(dict.fromkeys(t[1] for t in tiles if t[0] is None))[:400], node)
+    elif tiles:
+        ctx.ob("R1", "ABS", f, TILES, True, "; ".join(dict.fromkeys(t[1] for t in tiles))[:400], node)
+    return True
+
+
 def r1(ctx):
     f = ctx.repo.func("utils.xor")
     ps = params(f.node)
@@ -1552,52 +1958,61 @@ def r1(ctx):
         ctx.ob("R1", "ABS", f, "return data", True, f"the unchanged data is returned on the paths empty and all-zero keys take ({[_cond_text(s.conds) for s in ident]}), on no path a key with a non-zero byte and non-empty data can take", ident[0].end[2])
 
     # ---- computed result
-    n = SymPoly.atom(f"len({data})")
     for s in other:
-        v = s.end[1]
-        node = s.end[2]
-        tb = _to_bytes(v)
-        if tb is None:
-            el = _xor_elementwise(v, data, key)
-            if el is None:
-                ctx.undecided("R1", "ABS", f, "return int.to_bytes(.., len(data), ..)", f"computed result `{src(v)[:120]}` is neither int.to_bytes(from_bytes ^ from_bytes, ..) nor an element-wise XOR the rule models", node)
-            else:
-                ctx.ob("R1", "ABS", f, "return int.to_bytes(.., len(data), ..)", el, "element-wise XOR of every data byte with the key repeated cyclically (one output byte per data byte)" if el else f"element-wise XOR `{src(v)[:120]}` does not pair data[i] with key[i % len(key)]", node)
-            continue
-        val = tb["value"]
-        fbs = [_from_bytes(x) for x in ((val.left, val.right) if isinstance(val, ast.BinOp) and isinstance(val.op, ast.BitXor) else ())]
-        if len(fbs) != 2 or any(x is None for x in fbs):
-            ctx.undecided("R1", "ABS", f, "return int.to_bytes(.., len(data), ..)", f"the converted value `{src(val)[:120]}` is not int.from_bytes(..) ^ int.from_bytes(..)", node)
-            continue
-        d_ops = [x for x in fbs if _is_param(_strip_view(x["bytes"]), data)]
-        k_ops = [x for x in fbs if x not in d_ops]
-        orders = [src(tb["byteorder"])] + [src(x["byteorder"]) for x in fbs]
-        signed = [_c(x["signed"]) for x in fbs] + [_c(tb["signed"])]
-        ord_ok = len(set(orders)) == 1 and all(x is False for x in signed)
-        if len(d_ops) != 1 or len(k_ops) != 1:
-            located = any(_mentions(x["bytes"], data) for x in fbs)
-            if located and len(d_ops) == 0:
-                ctx.ob("R1", "ABS", f, "return int.to_bytes(.., len(data), ..)", False, f"the data operand of the XOR is a transformed copy of the data: {[src(x['bytes'])[:80] for x in fbs]}", node)
-            else:
-                ctx.undecided("R1", "ABS", f, "return int.to_bytes(.., len(data), ..)", f"cannot tell the data operand from the key operand in {[src(x['bytes'])[:80] for x in fbs]}", node)
-            continue
-        K, L = _unview(k_ops[0]["bytes"], seqs), _unview(tb["length"], seqs)
-        F = _facts_of(s.conds, seqs)
-        # length argument: len(data) in normal form (len of slices / repetitions resolved by the length algebra L1)
-        pl = _P(L, F.len_poly)
-        vocab = all(a in (f"len({data})", f"len({key})") or a in _DIVS for a in pl.atoms()) if pl is not None else False
-        if not ord_ok or (pl is not None and pl != n and vocab and not F.unknown):
-            ctx.ob("R1", "ABS", f, "return int.to_bytes(.., len(data), ..)", False,
-                   f"result length must be len({data}) (length argument is {pl!r} on the path {_cond_text(s.conds)}); one unsigned byte order for both from_bytes and to_bytes: {orders}, signed={signed} -> {ord_ok}", node)
-        elif pl is None or pl != n:
-            ctx.undecided("R1", "ABS", f, "return int.to_bytes(.., len(data), ..)", f"length argument `{src(L)[:80]}` ({pl!r}) is outside the length algebra", node)
+        _xor_computed(ctx, f, ex, s, data, key)
+
+
+def _xor_computed(ctx, f, ex, s, data, key, depth=0):
+    """The obligations of one computed (non-identity) returning path `s` of a function with the roles (data, key): xor
+    itself, or a repository helper a block-wise xor delegates its pieces to (obligations are recorded at xor, `f`)."""
+    seqs = {data, key}
+    n = SymPoly.atom(f"len({data})")
+    v = s.end[1]
+    node = s.end[2] if depth == 0 else None
+    tb = _to_bytes(v)
+    if tb is None:
+        el = _xor_elementwise(v, data, key)
+        if el is None:
+            if depth == 0 and _xor_blockwise(ctx, f, ex, s, data, key):
+                return
+            ctx.undecided("R1", "ABS", f, "return int.to_bytes(.., len(data), ..)", f"computed result `{src(v)[:120]}` is neither int.to_bytes(from_bytes ^ from_bytes, ..) nor an element-wise XOR the rule models", node)
         else:
-            ctx.ob("R1", "ABS", f, "return int.to_bytes(.., len(data), ..)", True, f"result length is len({data}) in normal form; value is from_bytes({data}) ^ from_bytes(keystream) with one unsigned byte order {orders[0]}", node)
-        ok, why = _keystream(K, F, data, key)
-        if ok is None:
-            ctx.undecided("R1", "ABS", f, "key tiled then cut to size", why, node)
+            ctx.ob("R1", "ABS", f, "return int.to_bytes(.., len(data), ..)", el, "element-wise XOR of every data byte with the key repeated cyclically (one output byte per data byte)" if el else f"element-wise XOR `{src(v)[:120]}` does not pair data[i] with key[i % len(key)]", node)
+        return
+    val = tb["value"]
+    fbs = [_from_bytes(x) for x in ((val.left, val.right) if isinstance(val, ast.BinOp) and isinstance(val.op, ast.BitXor) else ())]
+    if len(fbs) != 2 or any(x is None for x in fbs):
+        ctx.undecided("R1", "ABS", f, "return int.to_bytes(.., len(data), ..)", f"the converted value `{src(val)[:120]}` is not int.from_bytes(..) ^ int.from_bytes(..)", node)
+        return
+    d_ops = [x for x in fbs if _is_param(_strip_view(x["bytes"]), data)]
+    k_ops = [x for x in fbs if x not in d_ops]
+    orders = [src(tb["byteorder"])] + [src(x["byteorder"]) for x in fbs]
+    signed = [_c(x["signed"]) for x in fbs] + [_c(tb["signed"])]
+    ord_ok = len(set(orders)) == 1 and all(x is False for x in signed)
+    if len(d_ops) != 1 or len(k_ops) != 1:
+        located = any(_mentions(x["bytes"], data) for x in fbs)
+        if located and len(d_ops) == 0:
+            ctx.ob("R1", "ABS", f, "return int.to_bytes(.., len(data), ..)", False, f"the data operand of the XOR is a transformed copy of the data: {[src(x['bytes'])[:80] for x in fbs]}", node)
         else:
-            ctx.ob("R1", "ABS", f, "key tiled then cut to size", ok, ("" if ok else f"the key operand of the XOR must be the key repeated and cut to exactly len({data}) bytes: ") + why + f" (path {_cond_text(s.conds)})", node)
+            ctx.undecided("R1", "ABS", f, "return int.to_bytes(.., len(data), ..)", f"cannot tell the data operand from the key operand in {[src(x['bytes'])[:80] for x in fbs]}", node)
+        return
+    K, L = _unview(k_ops[0]["bytes"], seqs), _unview(tb["length"], seqs)
+    F = _facts_of(s.conds, seqs)
+    # length argument: len(data) in normal form (len of slices / repetitions resolved by the length algebra L1)
+    pl = _P(L, F.len_poly)
+    vocab = all(a in (f"len({data})", f"len({key})") or a in _DIVS for a in pl.atoms()) if pl is not None else False
+    if not ord_ok or (pl is not None and pl != n and vocab and not F.unknown):
+        ctx.ob("R1", "ABS", f, "return int.to_bytes(.., len(data), ..)", False,
+               f"result length must be len({data}) (length argument is {pl!r} on the path {_cond_text(s.conds)}); one unsigned byte order for both from_bytes and to_bytes: {orders}, signed={signed} -> {ord_ok}", node)
+    elif pl is None or pl != n:
+        ctx.undecided("R1", "ABS", f, "return int.to_bytes(.., len(data), ..)", f"length argument `{src(L)[:80]}` ({pl!r}) is outside the length algebra", node)
+    else:
+        ctx.ob("R1", "ABS", f, "return int.to_bytes(.., len(data), ..)", True, f"result length is len({data}) in normal form; value is from_bytes({data}) ^ from_bytes(keystream) with one unsigned byte order {orders[0]}", node)
+    ok, why = _keystream(K, F, data, key)
+    if ok is None:
+        ctx.undecided("R1", "ABS", f, "key tiled then cut to size", why, node)
+    else:
+        ctx.ob("R1", "ABS", f, "key tiled then cut to size", ok, ("" if ok else f"the key operand of the XOR must be the key repeated and cut to exactly len({data}) bytes: ") + why + f" (path {_cond_text(s.conds)})", node)
 
 
 # ===================================================================================================== R2 pack / unpack
@@ -1669,6 +2084,124 @@ def _none_test(a, p):
     return None
 
 
+def _flag_through(e, flag, conds):
+    """The boolean argument `e` is the parameter `flag` itself (bool(flag) too), or the constant the path conditions fix the
+    flag's truth to (`if flag: f(.., True) else: f(.., False)`)."""
+    if isinstance(e, ast.Call) and dotted(e.func) == "bool" and len(e.args) == 1 and not e.keywords:
+        e = e.args[0]
+    if _is_param(e, flag):
+        return True
+    c = _c(e)
+    return isinstance(c, bool) and any(_is_param(a, flag) and pol == c for a, pol in conds)
+
+
+def _width_on_path(conds, data, others=()):
+    """Largest number of bytes the conversion can cover on a path, read off its conditions over len(data), the truth of the
+    data and the width parameter `size` (interval sets; case `size is None`: the whole data / the minimal width, unbounded)
+    -> (bound | "skip" when only widths below one byte or no data length take the path, conditions on the data / size / the
+    `others` parameters that are not such tests)."""
+    dom, full = (0, _INF), (-_INF, _INF)
+    dlen, sz, none_cases, unknown = [dom], [full], [True, False], []
+    for a, pol in conds:
+        if data is not None:
+            a = _unview(a, {data})
+            t = [(1, _INF)] if _is_param(a, data) else _atom_set(a, f"len({data})", dom)
+            if t is not None:
+                dlen = _iv_and(dlen, t if pol else _iv_not(t, dom))
+                continue
+        nt = _none_test(a, "size")
+        if nt is not None:
+            none_cases = [x for x in none_cases if x == (nt == pol)]
+            continue
+        if _is_param(a, "size"):  # truth of the width: neither None nor 0
+            if pol:
+                none_cases, sz = [x for x in none_cases if not x], _iv_and(sz, [(-_INF, -1), (1, _INF)])
+            else:
+                sz = _iv_and(sz, [(0, 0)])
+            continue
+        it = _int_test(a)
+        if it is not None and it[0] == "size":
+            t = _iv_cmp(it[1], it[2], full)
+            sz = _iv_and(sz, t if pol else _iv_not(t, full))
+            if it[1] not in (ast.Eq, ast.NotEq) or (it[1] is ast.Eq) == pol:
+                none_cases = [x for x in none_cases if not x]  # an ordering was evaluated / equality with an int holds: size is an int
+            continue
+        if (data is not None and _mentions(a, data)) or _mentions(a, "size") or any(_mentions(a, o) for o in others):
+            unknown.append(a)
+    widths = _iv_and(sz, [(1, _INF)])
+    cases = ([widths[-1][1]] if False in none_cases and widths else []) + ([_INF] if True in none_cases else [])
+    if not cases or not dlen:
+        return "skip", unknown
+    hi = max(cases)
+    if data is not None:
+        hi = min(hi, dlen[-1][1])
+    return hi, unknown
+
+
+def _term_reads(ex, e, arg, seen=None):
+    """Does the path term read the parameter `arg`?  True: it mentions it, directly or through a loop-carried symbol whose
+    loop (iterable, start values, one iteration's terms and conditions) mentions it; False: it does not; None: the term
+    contains a symbol whose definition the executor does not expose (handler / with targets, opaque bindings)."""
+    if e is None:
+        return False
+    if _mentions(e, arg):
+        return True
+    seen = set() if seen is None else seen
+    res = False
+    for n in ast.walk(e):
+        if not (isinstance(n, ast.Name) and "@" in n.id):
+            continue
+        k = n.id.partition("@")[2].rstrip("p")
+        lp = ex.loops.get(int(k)) if k.isdigit() else None
+        if lp is None:
+            res = None
+            continue
+        if k in seen:
+            continue
+        seen.add(k)
+        terms = [lp.iter] + list(lp.pre.values()) + [v for b in lp.iters for v in b.env.values()] + [a for b in lp.iters for a, _pol in b.conds]
+        for t in terms:
+            r = _term_reads(ex, t, arg, seen)
+            if r:
+                return True
+            if r is None:
+                res = None
+    return res
+
+
+def _reads_argument(ctx, f, ex, states, data, arg, free_width, why, others=()):
+    """Every returning path of a conversion must read the argument `arg` - in the returned term or in a condition of the
+    path - unless the path is confined to at most `free_width` bytes, where the conversion does not depend on it (L26)."""
+    text = f"result depends on {arg}"
+    fname = f.node.name
+    bad, und, reads, special, narrow = [], [], 0, 0, 0
+    for s in states:
+        if s.end[0] != "return" or s.end[1] is None:
+            continue
+        r = _term_reads(ex, s.end[1], arg)
+        if r:
+            reads += 1
+            continue
+        if any(_mentions(a, arg) for a, _pol in s.conds):
+            special += 1  # a path specialised for one value of the argument: what it returns for that value is not judged here
+            continue
+        hi, unknown = _width_on_path(s.conds, data, others)
+        if hi == "skip" or hi <= free_width:
+            narrow += 1
+        elif r is None:
+            und.append(f"`{_show(s.end[1], 60)}` contains a value whose definition the path executor does not expose: whether it reads `{arg}` is not known")
+        elif unknown:
+            und.append(f"`{_show(s.end[1], 60)}` is returned without reading `{arg}` on the path {_cond_text(s.conds)[:4]}, whose conditions {[src(x)[:40] for x in unknown[:2]]} are not tests of the data length / width the rule models")
+        else:
+            bad.append(f"`{_show(s.end[1], 60)}` is returned on the path {_cond_text(s.conds)[:4]} without reading `{arg}` (neither the value nor a path condition mentions it), for " + ("any width" if hi == _INF else f"widths up to {hi} byte(s)") + f": {why}")
+    if bad:
+        ctx.ob("R2", "AGREE", f, text, False, f"{fname}: " + "; ".join(dict.fromkeys(bad))[:600])
+    elif und:
+        ctx.undecided("R2", "AGREE", f, text, f"{fname}: " + "; ".join(dict.fromkeys(und))[:400])
+    elif reads + special + narrow:
+        ctx.ob("R2", "AGREE", f, text, True, f"{fname}: {reads} returning path(s) read `{arg}` in the returned term, {special} are selected by a test of it, {narrow} are confined to at most {free_width} byte(s), where the conversion does not depend on it (L26)")
+
+
 def r2(ctx):
     mod = ctx.repo.module("utils")
     n = 0
@@ -1721,24 +2254,31 @@ def r2(ctx):
         for s in rets:
             fb = _from_bytes(s.end[1]) if s.end[1] is not None else None
             if fb is None:
-                verdict, why = None, why + [f"return value `{src(s.end[1])[:80]}` is not int.from_bytes(..)"]
+                verdict, why = (None if verdict is not False else False), why + [f"return value `{src(s.end[1])[:80]}` is not int.from_bytes(..)"]
                 continue
             b = fb["bytes"]
             cut_ok = False
             if isinstance(b, ast.Subscript) and isinstance(b.slice, ast.Slice) and _is_param(_strip_view(b.value), ups[0]):
                 lo, hi, stp = b.slice.lower, b.slice.upper, b.slice.step
-                cut_ok = (lo is None or _c(lo) == 0) and hi is not None and _is_param(hi, "size") and (stp is None or _c(stp) == 1)
+                fixed = next((t[2] for t in (_int_test(a) if pol else None for a, pol in s.conds) if t is not None and t[0] == "size" and t[1] is ast.Eq), None)
+                cut_ok = (lo is None or _c(lo) == 0) and hi is not None and (_is_param(hi, "size") or (fixed is not None and _c(hi) == fixed)) and (stp is None or _c(stp) == 1)
             elif _is_param(_strip_view(b), ups[0]):
                 # the whole data: only correct on a path where size is None
                 cut_ok = any(src(a) == "size is None" and pol or src(a) == "size is not None" and not pol for a, pol in s.conds)
-            thru = _is_param(fb["byteorder"], "byteorder") and _is_param(fb["signed"], "signed")
+            one_byte = _width_on_path(s.conds, ups[0])[0]
+            thru = (_is_param(fb["byteorder"], "byteorder") or (_c(fb["byteorder"]) in ("little", "big") and (one_byte == "skip" or one_byte <= 1))) and _flag_through(fb["signed"], "signed", s.conds)  # L26: one byte reads the same in both orders
             if not (cut_ok and thru):
-                verdict = False if verdict is not None else None
+                verdict = False  # located and wrong on this path, whatever the other paths return
                 why.append(f"int.from_bytes({src(b)}, {src(fb['byteorder'])}, signed={src(fb['signed'])})")
         if verdict is None:
             ctx.undecided("R2", "AGREE", u, "unpack", "; ".join(why))
         else:
             ctx.ob("R2", "AGREE", u, "unpack", bool(verdict and dflt_ok), "unpack passes byteorder/signed through to int.from_bytes over data[:size] (defaults little, unsigned)" if verdict and dflt_ok else f"unpack: {why or 'defaults ' + str(d)}")
+
+        # a returning path that ignores `signed` / `byteorder` is only right where the conversion does not depend on them
+        if len(ups) >= 1 and {"size", "byteorder", "signed"} <= set(ups[1:]):
+            _reads_argument(ctx, u, ex, states, ups[0], "signed", 0, "int.from_bytes(.., signed=True) and (.., signed=False) differ on every chunk whose most significant byte is >= 0x80, which is what pack produces for the negative values of a width (L26)")
+            _reads_argument(ctx, u, ex, states, ups[0], "byteorder", 1, "the little- and big-endian readings of a chunk of two or more bytes differ unless it is a palindrome (L26)")
 
     # ---- pack: n.to_bytes(size, byteorder, signed); minimal size exactly when size is None
     p = pfn["pack"]
@@ -1754,19 +2294,27 @@ def r2(ctx):
         for s in rets:
             tb = _to_bytes(s.end[1]) if s.end[1] is not None else None
             if tb is None:
-                verdict, why = None, why + [f"return value `{src(s.end[1])[:80]}` is not <int>.to_bytes(..)"]
+                verdict, why = (None if verdict is not False else False), why + [f"return value `{src(s.end[1])[:80]}` is not <int>.to_bytes(..)"]
                 continue
-            thru = _is_param(tb["value"], pps[0]) and _is_param(tb["byteorder"], "byteorder") and _is_param(tb["signed"], "signed")
+            thru = _is_param(tb["value"], pps[0]) and _is_param(tb["byteorder"], "byteorder") and _flag_through(tb["signed"], "signed", s.conds)
             L = tb["length"]
             # which case of `size` is this path?  (case analysis over the code's own None-tests of the parameter)
             envs, unk = [True, False], []
             for a, pol in s.conds:
                 t = _none_test(a, "size")
                 if t is None:
-                    if _mentions(a, "size"):
+                    it = _int_test(a) if _mentions(a, "size") else None
+                    if it is not None and it[0] == "size":
+                        # a comparison of the width with an integer: an ordering that was evaluated / an equality that holds
+                        # means size is an int (the case `size given`); a failed equality says nothing about None
+                        if it[1] not in (ast.Eq, ast.NotEq) or (it[1] is ast.Eq) == pol:
+                            envs = [x for x in envs if not x]
+                    elif _mentions(a, "size"):
                         unk.append(a)
                     continue
                 envs = [x for x in envs if x == (t == pol)]
+            if not envs and not unk:
+                continue  # `size` would be None and an int at once: no call takes this path
             if unk:
                 envs = []
             len_ok = True
@@ -1803,6 +2351,10 @@ def r2(ctx):
             ctx.undecided("R2", "AGREE", p, "pack", "; ".join(why))
         else:
             ctx.ob("R2", "AGREE", p, "pack", bool(verdict and dflt_ok), "pack passes byteorder/signed through to int.to_bytes and sizes minimally only when size is None" if verdict and dflt_ok else f"pack: {why or 'defaults ' + str(d)}")
+
+
+        if len(pps) >= 1 and {"size", "byteorder", "signed"} <= set(pps[1:]):
+            _reads_argument(ctx, p, ex, states, None, "byteorder", 1, "the little- and big-endian byte strings of a value differ at every width of two or more bytes unless they are palindromes (L26)", others=pps[:1])
 
 
 # ===================================================================================================== R7 pack is total on the representable range
